@@ -18,6 +18,15 @@ MC_MaxLen == 3
 MC_Routes == {"rect_shared", "fromgrid_shared", "rect_fresh", "nonuniform"}
 MC_Attrs == {"cell_sides", "coord_vectors", "min_pt", "max_pt", "cell_boundary_vecs", "meshgrid", "grid_stride",
              "cell_sizes_vecs", "extent", "grid_min_pt"}
+\* non-mutating public methods of the sub-objects a partition holds by reference (harness/c14lib.py:call_shared gives
+\* the concrete spellings: every keyword / index form of each); arrays handed out by the call are overwritten
+MC_Methods == {"set.collapse", "set.collapse_seq", "set.squeeze", "set.insert", "set.append", "set.min", "set.max",
+               "set.corners", "set.extent", "set.mid_pt", "set.element", "set.getitem", "set.arith", "set.scalars",
+               "grid.min", "grid.max", "grid.max_pt", "grid.mid_pt", "grid.extent", "grid.squeeze", "grid.insert",
+               "grid.append", "grid.getitem", "grid.points", "grid.corners", "grid.corner_grid", "grid.convex_hull",
+               "grid.scalars",
+               "part.squeeze", "part.insert", "part.append", "part.getitem", "part.byaxis", "part.points", "part.index",
+               "part.scalars"}
 ExportLine ==
   Serialize(ToJson([sc |-> sc, objs |-> objs, hist |-> hist]) \o "\n", IOEnv.OUT_FILE,
             [format |-> "TXT", charset |-> "UTF-8",
